@@ -55,6 +55,8 @@ type Contract struct {
 	Modifies   []*Clause
 	AllocBound int
 	Trusted    bool
+	Auto       bool // default contract created by a sweep directive
+	NonNil     bool // all pointer parameters are required to be non-nil
 	NilRecv    bool
 	IsLemma    bool
 	LemmaSig   string
@@ -75,6 +77,13 @@ type pkgSpec struct {
 	specCode  []string
 	contracts []*Contract
 	source    string // "repo" or "mirror"
+	sweeps    []sweepSpec
+}
+
+type sweepSpec struct {
+	Root  string
+	Props []string
+	Line  int
 }
 
 const contractFile = "zz_contracts_verif.go"
@@ -189,6 +198,17 @@ func parseContractFile(rel, src string) (*pkgSpec, error) {
 		case "contract":
 			cur = &Contract{PkgDir: rel, Key: rest, Loops: map[int]*LoopSpec{}, Line: ln}
 			ps.contracts = append(ps.contracts, cur)
+		case "sweep":
+			// sweep <root function key> props C16 ... : every module function
+			// reachable from the root gets a default (safety-only) contract
+			key, r2 := splitWord(rest)
+			w, r3 := splitWord(r2)
+			sw := sweepSpec{Root: key, Line: ln}
+			if w == "props" {
+				sw.Props = strings.Fields(r3)
+			}
+			ps.sweeps = append(ps.sweeps, sw)
+			cur = nil
 		case "lemma":
 			name, sig := splitWord(rest)
 			cur = &Contract{PkgDir: rel, Key: "lemma:" + name, IsLemma: true, LemmaSig: sig, Loops: map[int]*LoopSpec{}, Line: ln}
@@ -234,6 +254,8 @@ func parseContractFile(rel, src string) (*pkgSpec, error) {
 				}
 			case "nilrecv":
 				cur.NilRecv = true
+			case "nonnil":
+				cur.NonNil = true
 			case "inline":
 				cur.LemmaMode = "inline"
 			case "note":
